@@ -48,8 +48,6 @@ def has_quirk_literal(m):
             k = {"str": 2, "oct": 1, "bit": 1, "seqof": 1, "setof": 1}.get(t[0])
             if k is not None:
                 s = t[k]
-                if s[0] == "range" and s[1] in (0, "MIN") and s[2] in ("MAX", G.SIZE_MAX) and s[3]:
-                    return True
                 for x in s[1:-1]:
                     if isinstance(x, int) and x < 0:
                         return True
@@ -335,6 +333,43 @@ class ResolveStream(runner.Stream):
             b2 = b.replace(vals, f"IMPORTS {lo}, {hi} FROM Lib;")
             out.append(f"resolve subst {hx(a2)},{hx(lib)} {hx(b2)},{hx(lib)} regress:ref_named_min_max:eq")
             out.append(f"resolve subst {hx(lib)},{hx(a2)} {hx(lib)},{hx(b2)} regress:ref_named_min_max:eq")
+        # a name imported FROM a module that is not loaded, while an unrelated loaded module defines a value of
+        # that name: an unresolved reference, never the other module's value
+        tele = ("Telemetry DEFINITIONS AUTOMATIC TAGS ::= BEGIN\nIMPORTS frame-limit FROM Telemetry-Limits;\n"
+                "Frame ::= SEQUENCE { n INTEGER (0..frame-limit), b OCTET STRING (SIZE(1..frame-limit)), d INTEGER DEFAULT frame-limit }\nEND")
+        video = "Video-Codec DEFINITIONS AUTOMATIC TAGS ::= BEGIN\nframe-limit INTEGER ::= 25\nRate ::= INTEGER (0..frame-limit)\nEND"
+        video_oid = video.replace("Video-Codec DEFINITIONS", "Video-Codec { 1 2 99 } DEFINITIONS")
+        for other in (video, video_oid):
+            out.append(f"resolve subst {hx(tele)},{hx(other)} - regress:import_from_unloaded:unresolved")
+            out.append(f"resolve subst {hx(other)},{hx(tele)} - regress:import_from_unloaded:unresolved")
+        tele2 = tele.replace("FROM Telemetry-Limits;", "FROM Telemetry-Limits { 1 2 98 };")
+        out.append(f"resolve subst {hx(video_oid)},{hx(tele2)} - regress:import_from_unloaded:unresolved")
+        out.append(f"resolve subst {hx(tele2)},{hx(video_oid)} - regress:import_from_unloaded:unresolved")
+        # bounds that only after the resolution have a shape the front end normalises (equal bounds -> fixed
+        # size, 0..MAX -> no constraint): extensibility and bounds are those of the literal module, however
+        # the two bounds are spelled
+        kinds = ("OCTET STRING (SIZE(%s))", "BIT STRING (SIZE(%s))", "UTF8String (SIZE(%s))", "IA5String (SIZE(%s))",
+                 "SEQUENCE (SIZE(%s)) OF BOOLEAN", "SET (SIZE(%s)) OF BOOLEAN")
+        for lo, hi in ((4, 4), (0, 0), (1, 1), (0, "MAX"), (4, "MAX"), (0, 9), (16, 16)):
+            spellings = [("blk-min", "blk-max")] if hi != "MAX" else []
+            spellings += [("blk-min", str(hi)), (str(lo), "blk-max")] if hi != "MAX" else [("blk-min", "MAX")]
+            if lo == hi:
+                spellings.append(("blk-min", "blk-min"))
+            for slo, shi in spellings:
+                defs_ref, defs_lit = [], []
+                for i, kd in enumerate(kinds):
+                    for j, ext in enumerate(("", ", ...")):
+                        defs_ref.append(f"T{i}x{j} ::= " + kd % f"{slo}..{shi}{ext}")
+                        defs_lit.append(f"T{i}x{j} ::= " + kd % f"{lo}..{hi}{ext}")
+                vals = f"blk-min INTEGER ::= {lo}" + (f"\nblk-max INTEGER ::= {hi}" if hi != "MAX" else "")
+                a = f"Main DEFINITIONS AUTOMATIC TAGS ::= BEGIN\n{vals}\n" + "\n".join(defs_ref) + "\nEND"
+                b = f"Main DEFINITIONS AUTOMATIC TAGS ::= BEGIN\n{vals}\n" + "\n".join(defs_lit) + "\nEND"
+                out.append(f"resolve subst {hx(a)} {hx(b)} regress:norm_after_resolve:eq")
+                lib = f"Lib {{ 1 2 88 }} DEFINITIONS AUTOMATIC TAGS ::= BEGIN\n{vals}\nEND"
+                imp = "IMPORTS blk-min" + (", blk-max" if hi != "MAX" else "") + " FROM Elsewhere { 1 2 88 };"
+                a2, b2 = a.replace(vals, imp), b.replace(vals, imp)
+                out.append(f"resolve subst {hx(a2)},{hx(lib)} {hx(b2)},{hx(lib)} regress:norm_after_resolve:eq")
+                out.append(f"resolve subst {hx(lib)},{hx(a2)} {hx(lib)},{hx(b2)} regress:norm_after_resolve:eq")
         # a value assignment that has the name of an enumeration item: `DEFAULT item` of a component
         # typed by (a reference to) the ENUMERATED is the item, an INTEGER component's `DEFAULT item` /
         # bound is the value — same module, imported by name, imported by object identifier
